@@ -295,11 +295,29 @@ def memoise_njit() -> None:
     numba.njit = njit
 
 
+_WARM = [False]
+
+
+def warm_imports() -> None:
+    """Modules that pyxel imports lazily inside functions: import them once, outside any simulation."""
+    if _WARM[0]:
+        return
+    _WARM[0] = True
+    import importlib
+
+    for name in ("astropy.visualization", "astropy.io.fits", "PIL.Image", "tqdm.auto", "dask.utils", "pandas", "xarray", "scipy.ndimage", "skimage.transform", "fsspec", "asdf", "yaml"):
+        try:
+            importlib.import_module(name)
+        except Exception:  # noqa: BLE001
+            pass
+
+
 def reset_process_state() -> None:
     """Everything process-global that pyxel or the probes mutate."""
     import logging
 
     memoise_njit()
+    warm_imports()
 
     import numpy as np
 
